@@ -33,6 +33,30 @@
 (* fractions (re-delivered bulk): MergeQPRs then removes the repetition    *)
 (* from the ID list and from the histogram bucket.                         *)
 (*                                                                         *)
+(* THE PROXY (proxy/search/async.go).  The store above is one shard of the  *)
+(* proxy's shard list HotStores.Shards, at position `pos`; the NOther      *)
+(* other shards are kept abstract (what the invariants of this module say  *)
+(* about a store: the request survives, persisted partial results survive, *)
+(* done is durable - so an other shard is its number of processed          *)
+(* fractions and its done flag):                                           *)
+(*   Start/OStart   Ingestor.StartAsyncSearch: one StartAsyncSearch per    *)
+(*                  shard, in list order, the next one only after the      *)
+(*                  previous one returned nil; the id is given to the      *)
+(*                  client (PAcked) when all shards have answered          *)
+(*   OStep, OMark   an other shard persists one more partial result /      *)
+(*                  marks the request done (no captured fraction: done at  *)
+(*                  the start, async_searcher.go:126)                      *)
+(* PFetch is Ingestor.FetchAsyncSearchResult: the loop over the shards and *)
+(* over each shard's replicas (NotFound -> next replica / shard skipped),  *)
+(* done := done /\ resp.Done, seq.MergeQPRs over the answers (decoded by   *)
+(* responseToQPR: the histogram map is always allocated).  PSyncResult is  *)
+(* Ingestor.Search over the same shards, PRefResult the set-level meaning. *)
+(* A shard position in `ghost` has a first replica that never got the      *)
+(* request (it was unreachable at the start) and answers NotFound.         *)
+(* DoneRule = "all" is the design and the code (async.go:129); "last" is a *)
+(* spec mutation kept for non-vacuity (AsyncSearch_mut_donelast.cfg): the  *)
+(* flag of the last shard that answered, which TLC must refute.            *)
+(*                                                                         *)
 (* FetchInterval = "request" is the design (and, since fix e3c6750, the     *)
 (* code): FetchSearchResult merges with the request's histogram interval.  *)
 (* "one" is a spec mutation kept for non-vacuity (AsyncSearch_mut_interval *)
@@ -50,7 +74,14 @@ CONSTANTS NF,            \* fractions in range when the search is started (captu
           FetchInterval, \* "request" | "one"
           WriteOrder,    \* the operations of mustWriteFileAtomic, in program order
           AllowNewFrac,  \* BOOLEAN
-          Emit           \* BOOLEAN: print one behaviour per finished history
+          Emit,          \* BOOLEAN: print one behaviour per finished history
+          NOther,        \* shards behind the proxy besides the store modelled in detail (0 = that store alone)
+          ONF,           \* most captured fractions of an other shard
+          ONFs,          \* numbers of captured fractions (0..ONF) of an other shard to consider
+          OthCorpora,    \* contents of the other shards' fractions ([1..NOther -> [1..ONF -> SUBSET Docs]]) to consider
+          Ghosts,        \* sets of shard positions whose first replica never got the request, to consider
+          DoneRule,      \* "all" | "last"
+          EmitVec        \* BOOLEAN: print the proxy-level observation of every state in which the client may fetch
 
 VARIABLES st,        \* "up" | "down"
           known,     \* as.requests[id] exists
@@ -65,9 +96,15 @@ VARIABLES st,        \* "up" | "down"
           persisted, \* history: fractions whose .qpr write has returned
           searched,  \* history: how often each fraction was searched
           hist,      \* history for emission: crash images and new-fraction events
-          corpus, hi
+          corpus, hi,
+          oth,       \* the other shards: [ph: "none" (not started) | "run" | "done", k: processed fractions (a prefix of its list)]
+          on,        \* captured fractions of every other shard
+          pos,       \* position of the detailed store in HotStores.Shards
+          ghost,     \* positions of the shards whose first replica answers NotFound
+          ocorpus    \* contents of the other shards' fractions
 
-vars == <<st, known, done, acked, ph, todo, wr, fs, extra, ncrash, persisted, searched, hist, corpus, hi>>
+pvars == <<oth, on, pos, ghost, ocorpus>>
+vars == <<st, known, done, acked, ph, todo, wr, fs, extra, ncrash, persisted, searched, hist, corpus, hi, oth, on, pos, ghost, ocorpus>>
 
 Docs == 1..NDocs
 Fracs == 1..(NF + 1)                 \* NF + 1 is the fraction created after the start
@@ -99,10 +136,11 @@ Panic == [ids |-> {}, hasHist |-> FALSE, hist |-> ZeroHist, agg |-> ZeroAgg, pan
 EmptyQPR(hh) == [ids |-> {}, hasHist |-> hh, hist |-> ZeroHist, agg |-> ZeroAgg, panic |-> FALSE]
 
 \* what one fraction's Search returns (frac DataProvider.Search with the request's params)
-PR(f) == [ids |-> corpus[f], hasHist |-> hi > 0,
-          hist |-> [k \in Keys |-> IF hi > 0 THEN Cardinality({d \in corpus[f] : Bucket(MidOf(d), hi) = k}) ELSE 0],
-          agg |-> [g \in Groups |-> Cardinality({d \in corpus[f] : GrpOf(d) = g})],
-          panic |-> FALSE]
+PRd(S) == [ids |-> S, hasHist |-> hi > 0,
+           hist |-> [k \in Keys |-> IF hi > 0 THEN Cardinality({d \in S : Bucket(MidOf(d), hi) = k}) ELSE 0],
+           agg |-> [g \in Groups |-> Cardinality({d \in S : GrpOf(d) = g})],
+           panic |-> FALSE]
+PR(f) == PRd(corpus[f])
 
 \* seq.MergeQPRs(dst, {src}, limit, histInterval = I, order) (seq/qpr.go): IDs are concatenated,
 \* sorted, repetitions removed; every removed repetition decrements histogram[MID - MID % I] when
@@ -111,6 +149,7 @@ Merge(dst, src, I) ==
   LET reps == dst.ids \cap src.ids
       hh == dst.hasHist \/ src.hasHist IN
   IF dst.panic THEN dst
+  ELSE IF src.panic THEN Panic
   ELSE IF I > 0 /\ reps # {} /\ ~hh THEN Panic
   ELSE [ids |-> dst.ids \cup src.ids, hasHist |-> hh,
         hist |-> [k \in Keys |-> dst.hist[k] + src.hist[k]
@@ -181,19 +220,91 @@ FetchFold(acc, f, d) ==
                  ELSE Merge(acc, EmptyQPR(FALSE), FI), f + 1, d)
 FetchResult == Res(FetchFold(EmptyQPR(FALSE), 1, Disk))
 
+\* ------------------------------------------------------------------ the proxy over several shards
+Others == 1..NOther
+NShards == NOther + 1
+Positions == 1..NShards
+\* HotStores.Shards: position pos is the store modelled in detail, the others keep their order
+OthAt(p) == IF p < pos THEN p ELSE p - 1
+PosOf(i) == IF i < pos THEN i ELSE i + 1
+\* other-shard corpora: one with a document that also sits on the detailed store and on the next shard
+\* (a bulk re-delivered to another shard), and every content
+OthDup == {[i \in Others |-> [f \in 1..ONF |-> {((i + f) % NDocs) + 1}]]}
+OthAll == [Others -> [1..ONF -> SUBSET Docs]]
+NoGhost == {{}}
+AnyGhost == SUBSET Positions
+
+\* Ingestor.StartAsyncSearch (async.go:30): the shards are started one after the other; an error
+\* ends the loop (the client gets no id)
+Started(p) == IF p = pos THEN acked ELSE oth[OthAt(p)].ph # "none"
+MayStart(p) == \A q \in 1..(p - 1) : Started(q)
+PAcked == \A p \in Positions : Started(p)          \* StartAsyncSearch has returned the id
+
+\* an other shard's FetchSearchResult / Searcher.SearchDocs: the same folds as above over its fractions
+RECURSIVE OFold(_, _, _, _, _)
+OFold(acc, i, f, n, I) == IF f > n THEN acc ELSE OFold(Merge(acc, PRd(ocorpus[i][f]), I), i, f + 1, n, I)
+
+\* buildSearchResponse -> protobuf -> responseToQPR (ingestor.go:469): the histogram map is always made
+Wire(q) == [q EXCEPT !.hasHist = TRUE]
+
+\* what the replicas of the shard at position p answer to FetchAsyncSearchResult (grpc_async_search.go:47)
+NotFoundResp == [found |-> FALSE, done |-> FALSE, qpr |-> EmptyQPR(FALSE)]
+RealResp(p) ==
+  IF p = pos THEN [found |-> known, done |-> done, qpr |-> FetchFold(EmptyQPR(FALSE), 1, Disk)]
+  ELSE LET i == OthAt(p) IN
+       [found |-> oth[i].ph # "none", done |-> oth[i].ph = "done", qpr |-> OFold(EmptyQPR(FALSE), i, 1, oth[i].k, FI)]
+Replicas(p) == IF p \in ghost THEN <<NotFoundResp, RealResp(p)>> ELSE <<RealResp(p)>>
+\* the loop over one shard's replicas (async.go:108-120): NotFound -> next replica, an answer -> break
+RECURSIVE FirstFound(_)
+FirstFound(rs) == IF rs = <<>> THEN NotFoundResp ELSE IF Head(rs).found THEN Head(rs) ELSE FirstFound(Tail(rs))
+ShardResp(p) == FirstFound(Replicas(p))
+
+\* the loop over the shards (async.go:104-147) and the merge after it (async.go:153-156)
+PFetch0 == [any |-> FALSE, done |-> TRUE, qpr |-> EmptyQPR(FALSE)]
+PFetchStep(acc, r) ==
+  IF ~r.found THEN acc                        \* "shard does not have async search request": continue
+  ELSE [any |-> TRUE,
+        done |-> IF DoneRule = "all" THEN acc.done /\ r.done ELSE r.done,
+        qpr |-> Merge(acc.qpr, Wire(r.qpr), hi)]
+RECURSIVE PFetchFold(_, _)
+PFetchFold(acc, p) == IF p > NShards THEN acc ELSE PFetchFold(PFetchStep(acc, ShardResp(p)), p + 1)
+PFetch == PFetchFold(PFetch0, 1)              \* any = FALSE is the NotFound answer
+PFetchResult == Res(PFetch.qpr)
+
+\* Ingestor.Search (ingestor.go:59-121): every shard's Searcher.SearchDocs, merged with the request's interval
+ShardSync(p) == IF p = pos THEN FoldMerge(EmptyQPR(TRUE), Captured, hi)
+                ELSE OFold(EmptyQPR(TRUE), OthAt(p), 1, on[OthAt(p)], hi)
+RECURSIVE PSyncFold(_, _)
+PSyncFold(acc, p) == IF p > NShards THEN acc ELSE PSyncFold(Merge(acc, Wire(ShardSync(p)), hi), p + 1)
+PSyncResult == Res(PSyncFold(EmptyQPR(FALSE), 1))
+\* the meaning: distinct documents of the captured fractions of all shards; aggregations per fraction
+RECURSIVE FracCount(_, _), OthCount(_, _, _)
+FracCount(f, g) == IF f = 0 THEN 0 ELSE Cardinality({d \in corpus[f] : GrpOf(d) = g}) + FracCount(f - 1, g)
+OthCount(i, f, g) == IF i = 0 THEN 0
+                     ELSE IF f = 0 THEN OthCount(i - 1, IF i > 1 THEN on[i - 1] ELSE 0, g)
+                     ELSE Cardinality({d \in ocorpus[i][f] : GrpOf(d) = g}) + OthCount(i, f - 1, g)
+PRefResult ==
+  LET A == (UNION {corpus[f] : f \in 1..NF}) \cup UNION {UNION {ocorpus[i][f] : f \in 1..on[i]} : i \in Others} IN
+  [ids |-> A,
+   hist |-> [k \in Keys |-> IF hi > 0 THEN Cardinality({d \in A : Bucket(MidOf(d), hi) = k}) ELSE 0],
+   agg |-> [g \in Groups |-> FracCount(NF, g) + OthCount(NOther, IF NOther > 0 THEN on[NOther] ELSE 0, g)],
+   panic |-> FALSE]
+
 \* ------------------------------------------------------------------ actions
 Init == /\ st = "up" /\ known = FALSE /\ done = FALSE /\ acked = FALSE /\ ph = "none" /\ todo = <<>>
         /\ wr = NoWrite /\ fs = FS0 /\ extra = FALSE /\ ncrash = 0 /\ persisted = {}
         /\ searched = [f \in Fracs |-> 0] /\ hist = <<>>
         /\ corpus \in Corpora /\ hi \in Intervals
+        /\ oth = [i \in Others |-> [ph |-> "none", k |-> 0]] /\ on \in [Others -> ONFs]
+        /\ pos \in 1..NShards /\ ghost \in Ghosts /\ ocorpus \in OthCorpora
 
 \* StartSearch (async_searcher.go:104): unknown id -> persist info(Done=false)
-Start == /\ st = "up" /\ ~known /\ ph = "none" /\ wr = NoWrite
+Start == /\ st = "up" /\ ~known /\ ph = "none" /\ wr = NoWrite /\ MayStart(pos)
          /\ ph' = "start" /\ wr' = [t |-> "info", f |-> 0, new |-> "nd", n |-> 0]
-         /\ UNCHANGED <<st, known, done, acked, todo, fs, extra, ncrash, persisted, searched, hist, corpus, hi>>
+         /\ UNCHANGED <<st, known, done, acked, todo, fs, extra, ncrash, persisted, searched, hist, corpus, hi, oth, on, pos, ghost, ocorpus>>
 \* StartSearch on a known id: "async search already started", return nil
 StartAgain == /\ st = "up" /\ known /\ ~acked /\ acked' = TRUE
-              /\ UNCHANGED <<st, known, done, ph, todo, wr, fs, extra, ncrash, persisted, searched, hist, corpus, hi>>
+              /\ UNCHANGED <<st, known, done, ph, todo, wr, fs, extra, ncrash, persisted, searched, hist, corpus, hi, oth, on, pos, ghost, ocorpus>>
 
 \* one operation of mustWriteFileAtomic (async_searcher.go:418); the last one returns
 WStep ==
@@ -213,22 +324,22 @@ WStep ==
                   [] OTHER -> \* ph = "mark": as.requests[id] = state with Done
                        /\ done' = TRUE /\ ph' = "fin"
                        /\ UNCHANGED <<known, acked, todo, persisted>>)
-  /\ UNCHANGED <<st, extra, ncrash, searched, hist, corpus, hi>>
+  /\ UNCHANGED <<st, extra, ncrash, searched, hist, corpus, hi, oth, on, pos, ghost, ocorpus>>
 
 \* doSearch (async_searcher.go:178): processed fractions are those with a final-named .qpr
 Scan == /\ st = "up" /\ ph = "scan"
         /\ LET processed == {f \in Fracs : Disk.qpr[f] # "absent"}
                rest == SelectSeq(Captured, LAMBDA f : f \notin processed) IN
            /\ todo' = rest /\ ph' = IF rest = <<>> THEN "mark" ELSE "frac"
-        /\ UNCHANGED <<st, known, done, acked, wr, fs, extra, ncrash, persisted, searched, hist, corpus, hi>>
+        /\ UNCHANGED <<st, known, done, acked, wr, fs, extra, ncrash, persisted, searched, hist, corpus, hi, oth, on, pos, ghost, ocorpus>>
 \* processFrac (async_searcher.go:240): search the fraction, then persist the partial result
 BeginFrac == /\ st = "up" /\ ph = "frac" /\ wr = NoWrite
              /\ searched' = [searched EXCEPT ![Head(todo)] = @ + 1]
              /\ wr' = [t |-> "qpr", f |-> Head(todo), new |-> "full", n |-> 0]
-             /\ UNCHANGED <<st, known, done, acked, ph, todo, fs, extra, ncrash, persisted, hist, corpus, hi>>
+             /\ UNCHANGED <<st, known, done, acked, ph, todo, fs, extra, ncrash, persisted, hist, corpus, hi, oth, on, pos, ghost, ocorpus>>
 BeginMark == /\ st = "up" /\ ph = "mark" /\ wr = NoWrite
              /\ wr' = [t |-> "info", f |-> 0, new |-> "d", n |-> 0]
-             /\ UNCHANGED <<st, known, done, acked, ph, todo, fs, extra, ncrash, persisted, searched, hist, corpus, hi>>
+             /\ UNCHANGED <<st, known, done, acked, ph, todo, fs, extra, ncrash, persisted, searched, hist, corpus, hi, oth, on, pos, ghost, ocorpus>>
 
 Rec(x) == IF Emit THEN Append(hist, x) ELSE hist      \* histories are only kept when they are emitted
 
@@ -236,7 +347,7 @@ Rec(x) == IF Emit THEN Append(hist, x) ELSE hist      \* histories are only kept
 \* request waits in Scan, which is where it could be picked up by mistake
 NewFrac == /\ AllowNewFrac /\ st = "up" /\ ph = "scan" /\ ~extra
            /\ extra' = TRUE /\ hist' = Rec([ev |-> "newfrac", at |-> [ph |-> ph, f |-> 0, n |-> 0], img |-> Disk])
-           /\ UNCHANGED <<st, known, done, acked, ph, todo, wr, fs, ncrash, persisted, searched, corpus, hi>>
+           /\ UNCHANGED <<st, known, done, acked, ph, todo, wr, fs, ncrash, persisted, searched, corpus, hi, oth, on, pos, ghost, ocorpus>>
 
 Where == [ph |-> ph, f |-> IF wr.t = "qpr" THEN wr.f ELSE IF ph = "frac" THEN Head(todo) ELSE 0,
           n |-> IF wr.t = "none" THEN 0 - 1 ELSE wr.n]
@@ -246,14 +357,28 @@ Crash == /\ st = "up" /\ ncrash < MaxCrashes /\ ph # "none"
               /\ hist' = Rec([ev |-> "crash", at |-> Where, img |-> img])
          /\ st' = "down" /\ known' = FALSE /\ done' = FALSE /\ ph' = "none" /\ todo' = <<>> /\ wr' = NoWrite
          /\ ncrash' = ncrash + 1
-         /\ UNCHANGED <<acked, extra, persisted, searched, corpus, hi>>
+         /\ UNCHANGED <<acked, extra, persisted, searched, corpus, hi, oth, on, pos, ghost, ocorpus>>
 \* MustStartAsync (async_searcher.go:52): a final-named .info that decodes is a known request
 Restart == /\ st = "down" /\ st' = "up"
            /\ known' = (fs.info \in {"nd", "d"}) /\ done' = (fs.info = "d")
            /\ ph' = IF fs.info = "nd" THEN "scan" ELSE IF fs.info = "d" THEN "fin" ELSE "none"
-           /\ UNCHANGED <<acked, todo, wr, fs, extra, ncrash, persisted, searched, hist, corpus, hi>>
+           /\ UNCHANGED <<acked, todo, wr, fs, extra, ncrash, persisted, searched, hist, corpus, hi, oth, on, pos, ghost, ocorpus>>
 
-Progress == Start \/ StartAgain \/ WStep \/ Scan \/ BeginFrac \/ BeginMark \/ Restart
+\* the other shards.  StartSearch with no fraction in range is done at once (async_searcher.go:126);
+\* a restart of an other shard changes nothing the proxy can see (AckedRequestSurvives,
+\* PersistedPartialsSurvive, DoneIsDurable of this module), so it is not an action here
+OStart(i) == /\ oth[i].ph = "none" /\ MayStart(PosOf(i))
+             /\ oth' = [oth EXCEPT ![i] = [ph |-> IF on[i] = 0 THEN "done" ELSE "run", k |-> 0]]
+             /\ UNCHANGED <<st, known, done, acked, ph, todo, wr, fs, extra, ncrash, persisted, searched, hist, corpus, hi, on, pos, ghost, ocorpus>>
+OStep(i) == /\ oth[i].ph = "run" /\ oth[i].k < on[i]
+            /\ oth' = [oth EXCEPT ![i].k = @ + 1]
+            /\ UNCHANGED <<st, known, done, acked, ph, todo, wr, fs, extra, ncrash, persisted, searched, hist, corpus, hi, on, pos, ghost, ocorpus>>
+OMark(i) == /\ oth[i].ph = "run" /\ oth[i].k = on[i]
+            /\ oth' = [oth EXCEPT ![i].ph = "done"]
+            /\ UNCHANGED <<st, known, done, acked, ph, todo, wr, fs, extra, ncrash, persisted, searched, hist, corpus, hi, on, pos, ghost, ocorpus>>
+OProgress == \E i \in Others : OStart(i) \/ OStep(i) \/ OMark(i)
+
+Progress == Start \/ StartAgain \/ WStep \/ Scan \/ BeginFrac \/ BeginMark \/ Restart \/ OProgress
 Next == Progress \/ NewFrac \/ Crash
 Spec == Init /\ [][Next]_vars
 FairSpec == Spec /\ WF_vars(Progress)
@@ -294,6 +419,33 @@ PersistedNeverRedone == [][\A f \in persisted : searched'[f] = searched[f]]_vars
 
 EventuallyDone == acked ~> (st = "up" /\ done)
 
+\* ---- the proxy.  The client has the id (PAcked) and the detailed store answers (a store that is
+\* down makes FetchAsyncSearchResult fail with the transport error: no answer, no claim)
+PAnswers == st = "up" /\ PAcked
+PTypeOK == /\ \A i \in Others : oth[i].ph \in {"none", "run", "done"} /\ oth[i].k \in 0..on[i]
+           /\ pos \in Positions /\ ghost \subseteq Positions
+\* (the properties take the two folds as arguments so that PDesign evaluates them once per state:
+\* TLC evaluates every INVARIANT of a cfg on its own)
+\* THE property at the proxy: a done answer is the synchronous search over all shards
+PDoneSync(pf, ps) == (PAnswers /\ pf.any /\ pf.done) => Res(pf.qpr) = ps
+\* every fetch the client can make is answered, never fails, and shows no document the final result lacks;
+\* what it shows is exactly what the shards have persisted so far
+PWithin(pf, ps) == PAnswers => (pf.any /\ ~pf.qpr.panic /\ pf.qpr.ids \subseteq ps.ids)
+PUnion(pf) == PAnswers => pf.qpr.ids = UNION {ShardResp(p).qpr.ids : p \in Positions}
+\* done is reported exactly when every shard is done, whatever the order of the shard list
+PDoneIff(pf) == PAnswers => (pf.done <=> \A p \in Positions : RealResp(p).found /\ RealResp(p).done)
+
+PDoneImpliesSyncResult == PDoneSync(PFetch, PSyncResult)
+PSyncIsRef == PSyncResult = PRefResult
+PPartialWithinFinal == PWithin(PFetch, PSyncResult)
+PMergeIsUnion == PUnion(PFetch)
+PDoneIffAllDone == PDoneIff(PFetch)
+PDesign == LET pf == PFetch
+               ps == PSyncResult IN
+           PDoneSync(pf, ps) /\ ps = PRefResult /\ PWithin(pf, ps) /\ PUnion(pf) /\ PDoneIff(pf)
+PDoneIsStable == [][(PAnswers /\ st' = "up" /\ PFetch.done) => PFetch'.done]_vars
+PEventuallyDone == PAcked ~> (st = "up" /\ LET pf == PFetch IN pf.any /\ pf.done)
+
 \* ------------------------------------------------------------------ emission
 \* one behaviour per finished history: the crash images (what the directory must look like before
 \* each restart), the new-fraction events, and the directory at the end
@@ -303,4 +455,18 @@ EmitDone ==
   PrintT(<<"CASE", ToJson([nf |-> NF, acked |-> acked, extra |-> extra,
                            steps |-> [i \in 1..Len(hist) |-> [ev |-> hist[i].ev, at |-> hist[i].at, img |-> Img(hist[i].img)]],
                            final |-> Img(Disk), order |-> WriteOrder])>>)
+\* one proxy-level observation per state in which the client may fetch: per shard (in list order)
+\* its captured / processed fractions and done flag, and the answer of FetchAsyncSearchResult
+ShardObs(p) == IF p = pos THEN [n |-> NF, k |-> Cardinality({f \in 1..NF : Disk.qpr[f] = "full"}), done |-> done]
+               ELSE [n |-> on[OthAt(p)], k |-> oth[OthAt(p)].k, done |-> oth[OthAt(p)].ph = "done"]
+EmitPVec ==
+  ~EmitVec \/ ~PAnswers \/ wr # NoWrite \/       \* (between two atomic writes of the detailed store)
+  LET pf == PFetch
+      ps == PSyncResult IN
+  PrintT(<<"CASE", ToJson([ns |-> NShards, shards |-> [p \in Positions |-> ShardObs(p)],
+                           ghost |-> [p \in Positions |-> p \in ghost],
+                           found |-> pf.any, done |-> pf.done,
+                           sync |-> Res(pf.qpr) = ps,
+                           union |-> pf.qpr.ids = UNION {ShardResp(p).qpr.ids : p \in Positions},
+                           within |-> pf.qpr.ids \subseteq ps.ids])>>)
 =============================================================================
